@@ -109,6 +109,9 @@ fn adapter_params() -> SysParams {
 
 pub struct Adapters;
 impl SubCheck for Adapters {
+    fn fuzzable(&self) -> bool {
+        true
+    }
     type Case = AdapterCase;
     fn name(&self) -> &'static str {
         "wrapped_system_is_bisimilar"
@@ -231,6 +234,9 @@ fn start<A: Actor<Timer = u8, Random = u8>>(a: &A, unwrap: &dyn Fn(&A::State) ->
 
 pub struct HandlerLevel;
 impl SubCheck for HandlerLevel {
+    fn fuzzable(&self) -> bool {
+        true
+    }
     type Case = HandlerCase;
     fn name(&self) -> &'static str {
         "handler_level_transparency"
@@ -349,6 +355,9 @@ type VHist = Vec<(bool, usize, usize, u8)>;
 
 pub struct VecClient;
 impl SubCheck for VecClient {
+    fn fuzzable(&self) -> bool {
+        true
+    }
     type Case = VecCase;
     fn name(&self) -> &'static str {
         "scripted_vec_client"
